@@ -65,6 +65,20 @@ func genUpdater(rng *rand.Rand) input {
 		if v, ok := g.Ann[kPrefix]; ok && strings.TrimRight(v, "/") == "" {
 			delete(g.Ann, kPrefix)
 		}
+		switch rng.Intn(6) {
+		case 0, 1:
+			g.Namespace = pick(rng, []string{"team-a", "team-b"})
+		case 2:
+			// the same manifest as an earlier one, in another namespace
+			if i > 0 {
+				o := in.Ingresses[rng.Intn(i)]
+				g.Ann = o.Ann
+				g.Namespace = map[string]string{"default": "team-a", "team-a": "team-b", "team-b": ""}[o.ns()]
+				if _, ok := g.Ann[kOAuth]; ok {
+					oauth = true
+				}
+			}
+		}
 		in.Ingresses = append(in.Ingresses, g)
 	}
 	hosts := []string{"h1.local", "h2.local"}
@@ -172,6 +186,13 @@ func updaterCorpus() []input {
 			in.Calls = append(in.Calls, call{Kind: "backend", Name: "app1", Shift: 1}, call{Kind: "backend", Name: "app2"})
 			return in
 		}(),
+		// two tenants, same manifest: svc://authsvc:8080 is a different service in each namespace,
+		// same service on another port, both placements
+		std(nil, []ingIn{{Namespace: "team-a", Name: "ing1", Ann: annOf(kURL, "svc://authsvc:8080/check")},
+			{Namespace: "team-b", Name: "ing1", Ann: annOf(kURL, "svc://authsvc:8080/check")},
+			{Namespace: "team-b", Name: "ing2", Ann: annOf(kURL, "svc://authsvc:9090/check", kPlace, "frontend")}},
+			[]ubackend{{Name: "app1", Paths: []upath{{"a.local", "/", 0}}}, {Name: "app2", Paths: []upath{{"b.local", "/", 1}}}, {Name: "app3", Paths: []upath{{"c.local", "/", 2}}}},
+			"host:a.local", "host:b.local", "host:c.local", "backend:app1", "backend:app2", "backend:app3"),
 		// frontend placement lost to a sibling of the same host
 		std(nil, []ingIn{{Name: "ing0", Ann: annOf(kURL, "http://10.0.0.3:8000/auth", kPlace, "backend")}, {Name: "ing1", Ann: annOf(kURL, "http://10.0.0.2:8000/auth", kPlace, "frontend")}},
 			[]ubackend{{Name: "app1", Paths: []upath{{"h1.local", "/pub", 0}, {"h1.local", "/app", 1}}}},
@@ -315,12 +336,17 @@ func runUpdater(in input, scratch string) *updObs {
 	p.Sync() // the real UpdateGlobalConfig: auth-proxy range, external-has-lua
 	hc := p.Instance.Config()
 	upd := annotations.NewUpdater(hc, p.Options)
-	auth := hc.Backends().AcquireBackend("default", "authsvc", "8080")
-	auth.AcquireEndpoint("172.17.0.21", 8080, "")
+	// every namespace has its own authsvc, on two ports, with endpoints of its own
+	for _, ns := range []string{"default", "team-a", "team-b"} {
+		for _, port := range []int{8080, 9090} {
+			auth := hc.Backends().AcquireBackend(ns, "authsvc", strconv.Itoa(port))
+			auth.AcquireEndpoint(nsIP(ns, 21), port, "")
+		}
+	}
 	match := matchOf(in.PathType)
 	builder := annotations.NewMapBuilder(p.Log, updDefaults)
 	src := func(i int) *annotations.Source {
-		return &annotations.Source{Namespace: "default", Name: in.Ingresses[i].Name, Type: "Ingress"}
+		return &annotations.Source{Namespace: in.Ingresses[i].ns(), Name: in.Ingresses[i].Name, Type: "Ingress"}
 	}
 	backs := map[string]*hatypes.Backend{}
 	ubs := map[string]ubackend{}
@@ -367,7 +393,7 @@ func runUpdater(in input, scratch string) *updObs {
 	// outcomes of the validation of every url of the case, before any call
 	for _, g := range in.Ingresses {
 		if u := g.Ann[kURL]; u != "" {
-			obs.urls[u] = classifyURL(u, hc, obs.targets)
+			obs.urls[g.ns()+"|"+u] = classifyURL(u, g.ns(), hc, obs.targets)
 		}
 	}
 	p.Log.Msgs = nil
@@ -500,7 +526,7 @@ func targetKeyOfBackend(hc interface {
 	return "http:" + strings.Join(eps, ",") + ":" + host
 }
 
-func classifyURL(u string, hc interface {
+func classifyURL(u, srcNS string, hc interface {
 	Backends() *hatypes.Backends
 }, targets map[string]int) urlInfo {
 	info := urlInfo{ns: true}
@@ -540,11 +566,11 @@ func classifyURL(u string, hc interface {
 	case "service", "svc":
 		info.proto = "svc"
 		info.port = port != ""
-		ns, name := "default", host
+		ns, name := srcNS, host
 		if f := strings.Split(host, "/"); len(f) == 2 {
 			ns, name = f[0], f[1]
 		}
-		info.xns = ns == "default"
+		info.xns = ns == srcNS
 		if info.port && hc.Backends().FindBackend(ns, name, port) != nil {
 			info.found = true
 			key = "svc:" + ns + "_" + name + "_" + port
@@ -604,6 +630,19 @@ func oracleUpdater(in input, uo *updObs) []fail {
 				}
 				fs = append(fs, fail{key, id + ": neither AlwaysDeny nor an auth backend on the path object"})
 				continue
+			}
+			// the auth backend name of the path leads to the service its own auth-url names
+			if m := authNameRe.FindStringSubmatch(po.Back.Name); m != nil && d.url != "" {
+				want := uo.urls[in.Ingresses[ing].ns()+"|"+d.url].target
+				got := -1
+				for _, b := range uo.Binds {
+					if strconv.Itoa(b.Port) == m[1] {
+						got = uo.targets[b.Target]
+					}
+				}
+				if got != want || want == 0 {
+					fs = append(fs, fail{"wrong-auth-service", fmt.Sprintf("%s: %s is bound to target %d, %q of namespace %s resolves to target %d (%v)", id, po.Back.Name, got, d.url, in.Ingresses[ing].ns(), want, uo.Binds)})
+				}
 			}
 			for fe, frules := range uo.frontRaw {
 				rules := append(append([]c1819.AuthRule{}, frules...), bo.raw...)
@@ -770,8 +809,8 @@ func (c *coqCtx) rule(r ruleObs) string {
 	return fmt.Sprintf("{| r_act := %s; r_cond := %s; r_skip := %s |}", act, cond, skip)
 }
 
-func (c *coqCtx) url(u string, tag int) string {
-	i := c.uo.urls[u]
+func (c *coqCtx) url(ns, u string, tag int) string {
+	i := c.uo.urls[ns+"|"+u]
 	proto := map[string]string{"http": "PHttp", "svc": "PSvc", "other": "POther", "": "POther"}[i.proto]
 	return fmt.Sprintf("(Some ({| u_parse := %s; u_proto := %s; u_dns := %s; u_port := %s; u_ns := %s; u_xns := %s; u_found := %s; u_target := %s |}, %s))",
 		hx.Bool(i.parse), proto, hx.Bool(i.dns), hx.Bool(i.port), hx.Bool(i.ns), hx.Bool(i.xns), hx.Bool(i.found), hx.N(i.target), hx.N(tag))
@@ -859,7 +898,7 @@ func coqCase(id int, in input, uo *updObs) string {
 				}
 			}
 			sort.Ints(ings)
-			hplace, hurl, hasURL := "PlBackend", "", false
+			hplace, hurl, hurlNS, hasURL := "PlBackend", "", "", false
 			gotPlace := false
 			for _, i := range ings {
 				ann := in.Ingresses[i].Ann
@@ -869,7 +908,7 @@ func coqCase(id int, in input, uo *updObs) string {
 				}
 				if v, ok := ann[kURL]; ok && !hasURL {
 					hasURL = true
-					hurl = v
+					hurl, hurlNS = v, in.Ingresses[i].ns()
 				}
 			}
 			var keys, pobs []string
@@ -887,7 +926,7 @@ func coqCase(id int, in input, uo *updObs) string {
 			}
 			urlCoq := "None"
 			if hurl != "" {
-				urlCoq = c.url(hurl, feTag)
+				urlCoq = c.url(hurlNS, hurl, feTag)
 			}
 			calls = append(calls, fmt.Sprintf("UHost %s %s %s %s", hx.N(c.hostIdx[cl.Name]), hplace, urlCoq, hx.List(keys)))
 			hostsObs = append(hostsObs, hx.Tuple(hx.N(c.hostIdx[cl.Name]), hx.List(pobs)))
@@ -914,7 +953,7 @@ func coqCase(id int, in input, uo *updObs) string {
 				}
 				urlCoq := "None"
 				if d.url != "" {
-					urlCoq = c.url(d.url, tag)
+					urlCoq = c.url(in.Ingresses[ing].ns(), d.url, tag)
 				}
 				oauth := "None"
 				if v, ok := ann[kOAuth]; ok {
@@ -924,7 +963,9 @@ func coqCase(id int, in input, uo *updObs) string {
 					}
 					prefix = strings.TrimRight(prefix, "/")
 					ob := "None"
-					if bi, ok := prefixBackend[prefix]; ok {
+					// findBackend looks for the prefix among the paths whose backend is in the
+					// namespace of the declaration; the application backends are in "default"
+					if bi, ok := prefixBackend[prefix]; ok && in.Ingresses[ing].ns() == "default" {
 						ob = "(Some " + hx.N(bi) + ")"
 					}
 					oauth = fmt.Sprintf("(Some {| o_impl := %s; o_backend := %s; o_prefix := %s; o_tag := %s |})",
